@@ -188,7 +188,7 @@ func init() {
 	properties["C11"] = propSpec{
 		Level: "exploration",
 		Plan: []planEntry{
-			{Engine: "A", Scenario: "member", Quick: 36, Thorough: 450},
+			{Engine: "A", Scenario: "member", Quick: 48, Thorough: 450},
 		},
 		Rule: "seeded live-cluster runs with membership churn, timeout-now requests injected at wire level at arbitrary nodes (incl. non-voters and nodes being promoted / demoted), leader self-demotion / removal under load; non-trivial if at least 3 membership actions were started and at least one timeout-now was delivered; distinct = distinct abstract trace",
 		Nontrivial: func(st map[string]int64) bool {
